@@ -32,6 +32,14 @@ PROPS = {
              "the real VM runs with the call tracer, whose events are checked against that sequence, and the caller's arguments and named locals are compared "
              "before and after every call - the specification's FrameIsolation property evaluated on the implementation's own states.",
         note=_TRUST + "The VM hook (nsl/VM.py, NSL_VERIF=1) supplies enter/step/leave events; array/struct parameters written by a callee are outside the statement."),
+    "C04": dict(
+        claimed=True, level="model_checking",
+        technique="refinement check against the TLA+ language semantics NslSem run by TLC on exhaustive families (all swizzle read/write masks, constructor partitions, matrix selections and nested writes, component-wise and matrix operations) and seeded programs; prescribed values compared exactly with the real compiler + VM",
+        text="Every swizzle read mask of length 1-4 on vectors of size 2-4, every non-repeating write mask (also as copy test), every constructor partition (also "
+             "checking that the arguments survive), row/element selection and nested writes on 3x3 and 4x4 matrices with constant and dynamic indices, component-wise "
+             "+ - and comparisons, scalar multiplication on either side, division by scalar, matrix sum, matrix product and matrix x vector are generated as programs; "
+             "NslSem (vector and matrix actions typed by NslTypes) prescribes each result inside TLC and the VM must return it at both optimisation levels.",
+        note=_TRUST + "Inputs have pairwise distinct exactly-representable components; the families are built by the driver (not enumerated inside TLC)."),
     "C06": dict(
         claimed=True, level="model_checking",
         technique="the emitted bytes are decoded, validated and executed by the TLA+ machine WasmBinary (reader actions + operand-stack validation + interpreter on exact values) inside TLC and compared with the real VM's result; wasmtime cross-checks the TLA+ engine",
